@@ -1247,6 +1247,142 @@ def stream_param_names(run, thorough):
 
 
 # ---------------------------------------------------------------------------------------------
+# ill-typed ABI assignments: every entry point, sources of a DIFFERENT type than the target
+# ---------------------------------------------------------------------------------------------
+ABI_TYPES = ["uint8", "uint16", "uint32", "uint64", "bool", "byte", "address", "string", "dynbytes", "sbytes4", "sarr_u64_2", "sarr_bool_3",
+             "darr_u64", "darr_str", "tup_u64_str", "tup_bool_byte_u16", "named_u64_str"]
+ABI_ENTRIES = ["set_instance", "set_tuple_elem", "set_named_field", "set_sarray_elem", "set_darray_elem", "set_returned",
+               "store_tuple_elem", "store_named_field", "store_sarray_elem", "store_darray_elem", "store_returned"]
+ABI_PY_VALUES = ["'text'", "b'by'", "-1", "2**70", "256", "3.5", "None", "[1, 2, 3]", "[]", "(1, 'a')", "True", "[True, 'x']", "'A' * 58", "b'x' * 31", "object()"]
+ABI_DECODES = ["decode(Int(1))", "decode(Bytes('ab'), start_index=Bytes('a'))", "decode(Bytes('ab'), end_index=Int(1), length=Int(1))",
+               "decode(Bytes('ab'), start_index=Int(0), end_index=Bytes('z'))", "decode('notexpr')", "decode(Bytes('ab'), length=None, start_index=1)"]
+
+
+def abi_type(pt, name):
+    abi = pt.abi
+    import typing
+    L = typing.Literal
+    if name == "named_u64_str":
+        if "_nt" not in abi_type.__dict__:
+            abi_type._nt = type("NT", (abi.NamedTuple,), {"__annotations__": {"a": abi.Field[abi.Uint64], "b": abi.Field[abi.String]}})
+        return abi_type._nt
+    return {"uint8": abi.Uint8, "uint16": abi.Uint16, "uint32": abi.Uint32, "uint64": abi.Uint64, "bool": abi.Bool, "byte": abi.Byte,
+            "address": abi.Address, "string": abi.String, "dynbytes": abi.DynamicBytes, "sbytes4": abi.StaticBytes[L[4]],
+            "sarr_u64_2": abi.StaticArray[abi.Uint64, L[2]], "sarr_bool_3": abi.StaticArray[abi.Bool, L[3]],
+            "darr_u64": abi.DynamicArray[abi.Uint64], "darr_str": abi.DynamicArray[abi.String],
+            "tup_u64_str": abi.Tuple2[abi.Uint64, abi.String], "tup_bool_byte_u16": abi.Tuple3[abi.Bool, abi.Byte, abi.Uint16]}[name]
+
+
+def build_abi_case(pt, spec):
+    """-> expression performing ONE ill-typed ABI assignment (raises at construction when PyTeal refuses it there)"""
+    abi, Seq, Int, Bytes = pt.abi, pt.Seq, pt.Int, pt.Bytes
+    import typing
+    tgt = abi.make(abi_type(pt, spec["target"]))
+    entry = spec["entry"]
+    if entry == "python":
+        return Seq(tgt.set(eval(spec["value"])), pt.Approve())
+    if entry == "decode":
+        return Seq(eval("tgt." + spec["value"], {"tgt": tgt, "Int": Int, "Bytes": Bytes}), pt.Approve())
+    S_ = abi_type(pt, spec["source"])
+    what = entry.split("_", 1)[1]
+    if what == "instance":
+        val = abi.make(S_)
+    elif what == "tuple_elem":
+        val = abi.make(abi.Tuple2[abi.Uint64, S_])[1]
+    elif what == "named_field":
+        nt = type("NTs", (abi.NamedTuple,), {"__annotations__": {"k": abi.Field[abi.Uint64], "x": abi.Field[S_]}})
+        val = abi.make(nt).x
+    elif what == "sarray_elem":
+        val = abi.make(abi.StaticArray[S_, typing.Literal[2]])[1]
+    elif what == "darray_elem":
+        val = abi.make(abi.DynamicArray[S_])[Int(0)]
+    else:
+        ns = {"S_": S_, "Bytes": Bytes}
+        exec("def produce(*, output: S_):\n    return output.decode(Bytes('base16', '00'))\n", ns)
+        val = pt.ABIReturnSubroutine(ns["produce"])()
+    if entry.startswith("set_"):
+        return Seq(tgt.set(val), pt.Approve())
+    return Seq(val.store_into(tgt), pt.Approve())
+
+
+def run_abi_case(pt, spec, version):
+    def go():
+        e = build_abi_case(pt, spec)
+        return pt.compileTeal(e, pt.Mode.Application, version=version)
+    return real_call(pt, go)
+
+
+def abi_case_specs(thorough):
+    out = []
+    for ti, t in enumerate(ABI_TYPES):
+        for si, s_ in enumerate(ABI_TYPES):
+            if s_ == t:
+                continue
+            for ei, e in enumerate(ABI_ENTRIES):
+                if thorough or (ti + si + ei) % 3 == 0 or e in ("set_tuple_elem", "store_tuple_elem", "set_named_field"):
+                    out.append({"target": t, "source": s_, "entry": e})
+        for v in ABI_PY_VALUES:
+            out.append({"target": t, "entry": "python", "value": v})
+        for d in ABI_DECODES:
+            out.append({"target": t, "entry": "decode", "value": d})
+    return out
+
+
+def stream_abi_illtyped(run, thorough):
+    """every case must end in TEAL (PyTeal considers the assignment legal) or one of the five PyTeal errors"""
+    pt, ck = run.pt, run.ck
+    stats, bad = {}, {}
+    for j, spec in enumerate(abi_case_specs(thorough)):
+        for version in ((6, 8) if thorough or j % 2 == 0 else (8,)):
+            x = run_abi_case(pt, spec, version)
+            cls = "ok" if x["outcome"] == "ok" else x.get("exc", x["outcome"])
+            ck.count(("abi-illtyped", json.dumps(spec, sort_keys=True), version), nontrivial=(x["outcome"] == "pyteal"))
+            stats[spec["entry"].split("_")[0] + ":" + cls] = stats.get(spec["entry"].split("_")[0] + ":" + cls, 0) + 1
+            if x["outcome"] in ("crash", "timeout"):
+                inner = tuple(f[1] for f in ((x.get("tb") or {}).get("inner") or [])[-2:])
+                undeclared = (spec["entry"] == "python" and not py_value_declared(spec["target"], spec["value"])) or \
+                             (spec["entry"] == "decode" and not decode_args_declared(spec["value"]))
+                in_compile = "compileTeal" in [f_[0] for f_ in ((x.get("tb") or {}).get("top") or [])]
+                if undeclared and cls in ("TypeError", "AttributeError") and not in_compile:
+                    stats["argument of an undeclared Python type:" + cls] = stats.get("argument of an undeclared Python type:" + cls, 0) + 1
+                    continue
+                bad.setdefault((spec["entry"], cls, inner), []).append((spec, version, x))
+    for (entry, cls, inner), lst in bad.items():
+        f = ck.match_known(lambda f: abi_finding_matches(f, entry, cls, inner))
+        if f is not None:
+            ck.known(f["id"], f["what"])
+            continue
+        spec, version, x = lst[0]
+        ck.violation("%s (innermost frames %s): a non-PyTeal exception for the ill-typed ABI assignment %s (%d cases of this class)" % (
+            cls, "/".join(inner), json.dumps(spec), len(lst)),
+            {"kind": "crash", "abi_case": spec, "version": version, "result": {k_: v_ for k_, v_ in x.items() if k_ != "value"},
+             "python": "harness/c20.py build_abi_case(pt, abi_case)", "cases_of_this_class": [t[0] for t in lst[:30]]})
+    return stats
+
+
+def abi_finding_matches(f, entry, cls, inner):
+    """tuple-element-store-into-typeerror: ONLY TupleElement.store_into(dst) called directly (t[i].store_into(dst), namedtuple.field.store_into(dst));
+    the same exception reached through dst.set(t[i]) is not in the class"""
+    return f["id"] == "tuple-element-store-into-typeerror" and entry in ("store_tuple_elem", "store_named_field") and \
+        cls == "TypeError" and inner[-2:] == ("store_into", "_index_tuple")
+
+
+def py_value_declared(target, value):
+    """is the Python value of a type the target's set() declares (int for uintN/byte, bool for bool, str/bytes for address and string,
+    bytes for byte strings, an empty sequence for arrays)?  Values of other Python types are API misuse outside the property's quantifier
+    (types.require_type deliberately raises Python's TypeError for a non-Expr argument): they are counted, not judged."""
+    kind = {"uint8": "uint", "uint16": "uint", "uint32": "uint", "uint64": "uint", "byte": "uint", "bool": "bool", "address": "addr", "string": "str",
+            "dynbytes": "bytes", "sbytes4": "bytes"}.get(target, "seq")
+    ok = {"uint": ("-1", "2**70", "256"), "bool": ("True",), "addr": ("'text'", "b'by'", "'A' * 58", "b'x' * 31"), "str": ("'text'", "b'by'", "'A' * 58", "b'x' * 31"),
+          "bytes": ("b'by'", "b'x' * 31"), "seq": ("[]",)}[kind]
+    return value in ok
+
+
+def decode_args_declared(value):
+    return "'notexpr'" not in value and "start_index=1" not in value
+
+
+# ---------------------------------------------------------------------------------------------
 # compile-history sessions: the outcome class of a compilation must not depend on what was compiled before
 # ---------------------------------------------------------------------------------------------
 SESSION_PRELUDES = [("sub_illtyped_body", 8), ("sub_illtyped_body", 6), ("sub_illtyped_body_byref", 8), ("abi_sub_illtyped_body", 8),
@@ -1339,6 +1475,12 @@ def replay(path):
             bad = now is None or fnow is None or step_class(now) != step_class(fnow)
         else:
             bad = now is None or now["outcome"] in ("crash", "timeout")
+        print("still failing" if bad else "no longer failing")
+        return 1 if bad else 0
+    if "abi_case" in data:
+        x = run_abi_case(pt, data["abi_case"], data["version"])
+        print(json.dumps({k: v for k, v in x.items() if k != "value"}, default=repr)[:800])
+        bad = x["outcome"] in ("crash", "timeout")
         print("still failing" if bad else "no longer failing")
         return 1 if bad else 0
     if "param_case" in data:
@@ -1467,6 +1609,10 @@ def main(argv):
     t0 = time.time()
     ck.coverage["odd_parameter_names"] = stream_param_names(run, thorough)
     ck.coverage["param_names_s"] = round(time.time() - t0, 1)
+
+    t0 = time.time()
+    ck.coverage["ill_typed_abi_assignments"] = stream_abi_illtyped(run, thorough)
+    ck.coverage["abi_illtyped_s"] = round(time.time() - t0, 1)
 
     # ---- (2f) complexity probes (deterministic call counts, not timings)
     t0 = time.time()
@@ -1887,6 +2033,10 @@ def replay_known(ck, run, pt, wres, cx):
             detail = x.get("exc", x["outcome"])
         elif fid == "addr-bad-checksum-assemble-crash":
             x = real_call(pt, lambda: pt.compileTeal(pt.Seq(pt.Pop(pt.Addr("A" * 58)), pt.Approve()), pt.Mode.Application, version=6, assembleConstants=True))
+            still = x["outcome"] == "crash"
+            detail = x.get("exc", x["outcome"])
+        elif fid == "tuple-element-store-into-typeerror":
+            x = run_abi_case(pt, {"target": "uint64", "source": "string", "entry": "store_tuple_elem"}, 8)
             still = x["outcome"] == "crash"
             detail = x.get("exc", x["outcome"])
         elif fid == "if-typeof-exponential":
